@@ -87,6 +87,8 @@ func errClass(err error) string {
 		return "err:misbehaved"
 	case strings.Contains(s, "invalid input parameters"):
 		return "err:ops"
+	case strings.HasPrefix(s, "PANIC"):
+		return "PANIC"
 	}
 	return "err:other"
 }
@@ -149,6 +151,11 @@ func exec(op string) (string, string) {
 		}
 		done := make(chan out, 1)
 		go func() {
+			defer func() { // a panic in this goroutine would kill the whole harness process
+				if e := recover(); e != nil {
+					done <- out{nil, fmt.Errorf("PANIC %v", e)}
+				}
+			}()
 			ids, err := dkg.VerifC05DecideMemberFate(group.MemberIndex(me), res, evCh, start, &fakeBeacon{cfg: cfg}, bc)
 			done <- out{ids, err}
 		}()
